@@ -57,6 +57,7 @@ PROPS = {
             part("v2in", "TestVerif_C04_Rebuild", "rebuild", 360, 6000, shards=(12, 16)),
             part("v2in", "TestVerif_C04_CallerBytes", "caller-bytes", 400, 8000, shards=(4, 8)),
             part("v2in", "TestVerif_C04_Repeat", "repeat", 0, 0, shards=(4, 8), enum=True, compare_digest=True),
+            part("v2in", "TestVerif_C04_Repetitive", "repetitive", 1600, 40000, shards=(4, 16)),
         ],
     },
     "C05": {
@@ -87,7 +88,7 @@ PROPS = {
         "rule": "generated concurrent batches on one shared classifier under the Go race detector (invariant monitor) with result comparison against a sequential reference; see part rule",
         "assumptions": ["the Go scheduler is not owned by the harness: the race detector makes the verdict independent of the actual interleaving for the code paths executed, result equality under concurrency is sampled"],
         "timeout": {"quick": 600, "thorough": 3000},
-        "parts": [part("v2in", "TestVerif_C09", "concurrent-match", 6, 96, shards=(2, 8), race=True, prewrite=True, gomaxprocs=16)],
+        "parts": [part("v2in", "TestVerif_C09", "concurrent-match", 12, 160, shards=(4, 8), race=True, prewrite=True, gomaxprocs=16)],
     },
     "C10": {
         "rule": "structure-aware rapid generation (quick, thorough) and Go native coverage-guided fuzzing through four targets (thorough only) of byte inputs x thresholds in [0,1] x corpora (empty, empty documents, hostile documents, the input itself, full); oracle: no panic (recovered and reported with the input), no hang, public well-formedness predicate on every result",
@@ -128,7 +129,8 @@ PROPS = {
         "rule": "differential: classifier loaded from the archive written by ArchiveLicenses vs classifier built directly from the same normalised texts with fresh search sets, over generated archives and queries; see part rule",
         "assumptions": ["license files <= 8 KiB keep go-diff's character-level diffs far from its 1 s wall-clock deadline", "NearestMatch name differences are accepted only when both names are shown to reach the same confidence"],
         "timeout": {"quick": 900, "thorough": 5400},
-        "parts": [part("rootpkg", "TestVerif_C15", "archive-roundtrip", 480, 8000, shards=(12, 16))],
+        "parts": [part("rootpkg", "TestVerif_C15", "archive-roundtrip", 480, 8000, shards=(12, 16)),
+                  part("rootpkg", "TestVerif_C15_BigFiles", "big-files", 0, 0, shards=(8, 16), enum=True)],
     },
     "C16": {
         "rule": "enumeration of every shipped license file x presentation variants against a classifier built in process from the whole licenses/ directory, plus generated threshold-bound cases",
